@@ -304,6 +304,11 @@ def run(an: Analysis, rep):
     rep.run(purity, an, rep, "R04.P", ["from_code", "parameters", "args_len"])
     for fn in (r041, r042, r043, r044, r045, r046, r047):
         rep.run(fn, an, rep)
+    from .common import SharedRules
+    from . import c11
+    sh = SharedRules(rep, "R04.H", "the decoder reads every argument-count header field the interpreter version has (shared with C11's R11.4)")
+    for V in VERSIONS:
+        rep.run(c11.r114, an, sh, V, "R11.4", only=("argcount", "posonlyargcount", "kwonlyargcount", "varnames", "flags"))
 
 
 def r041(an, rep):
